@@ -1286,12 +1286,15 @@ def check_cache_and_lazy(repo, chk):
                 return False
 
             hooks = {"allow_attr_store": True, "builtin.isinstance": isinst}
+            # loading, scaling and bookkeeping steps are probes; small accessors of the class (a helper that looks the
+            # sample up in the cache, say) are interpreted
+            HEAVY = ("load_", "process_", "get_data_file", "get_weight_sign", "get_n_data", "set_lazy", "cal_angle", "get_dat_order", "get_phsp", "savetxt", "get_all_data", "get_data_index", "load", "save")
             for c in cls.mro:
                 for nm, g in c.methods.items():
-                    if nm != "get_data" and g.key not in hooks:
+                    if nm != "get_data" and g.key not in hooks and (nm.startswith(HEAVY) or nm in HEAVY):
                         hooks[g.key] = probe(nm)
             so = SelfObj(cls, {"cached_data": ({"bg": cached} if hit else {}), "dic": {}, "scale_list": ["bg"], "extra_var": [], "_Ngroup": sp.Integer(1)})
-            tr = Translator(repo, hooks=hooks, max_depth=1)
+            tr = Translator(repo, hooks=hooks, max_depth=2)
             try:
                 out = tr.call_fn(f, ["bg"], self_obj=so)
             except Unmodelled as e:
